@@ -8,9 +8,12 @@ for f in ${HARMLESS_FILES:-/verif/harmless/h*.diff /verif/harmless/g*.diff /veri
   file=$(grep '^+++ b/' $f | head -1 | sed 's/+++ b\///')
   case "$file" in
     *protocol/process.go) props="C01 C03 C06 C07 C10 C16 C17" ;;
-    *protocol/common.go) props="C06 C07 C08 C10 C16" ;;
-    *protocol/gateway.go) props="C01 C07 C10 C11" ;;
-    *protocol/tunnel.go|*protocol/client.go) props="C01 C06 C07 C08 C10" ;;
+    *protocol/common.go) props="C06 C07 C08 C10 C11 C16" ;;
+    *protocol/gateway.go) props="C01 C07 C08 C10 C11" ;;
+    *protocol/track.go) props="C07 C10 C11" ;;
+    *transport/legacy.go|*transport/websocket.go) props="C06 C08 C10 C11" ;;
+    *web/session.go) props="C13 C04 C10" ;;
+    *protocol/tunnel.go|*protocol/client.go) props="C01 C06 C07 C08 C10 C11" ;;
     *security/basic.go) props="C03 C10" ;;
     *security/jwt.go) props="C02 C03 C04 C07 C12 C15 C10" ;;
     *web/basic.go|*web/ntlm.go) props="C05 C10" ;;
